@@ -7,6 +7,11 @@ _NON_MUTATING = {'begin', 'end', 'find', 'constBegin', 'constEnd', 'cbegin', 'ce
                  'keyValueEnd', 'equal_range', 'isDetached', 'detach', 'toStdMap'}
 
 
+# callees taking forwarding / non-const references without modifying the argument
+_PURE_CALLEES = {'QString::arg', 'std::forward', 'std::as_const', 'qAsConst', 'std::get', 'std::get_if', 'std::holds_alternative',
+                 'std::visit', 'QXmpp::Private::visit'}
+
+
 def classify_use(fn, mem_nid):
     """how a field reference is used: ('write', how) / ('read', how) / ('addr', how)"""
     par = fn.parents()
@@ -46,6 +51,8 @@ def classify_use(fn, mem_nid):
                     return ('read', 'operator[]')
                 return ('write', name)
             # passed as an argument
+            if s and s['qname'] in _PURE_CALLEES:
+                return ('read', 'argument of ' + s['name'])
             if s:
                 args = n.get('args', [])
                 if cur in args:
